@@ -111,7 +111,8 @@ func genPath(plugin string, k int, core, taken []string) string {
 	case "absolute":
 		return "/abs/" + base
 	case "dotdot-component":
-		return "../canary/" + base
+		// relative, absolute (cleaning an absolute path swallows the leading ".."), deeper
+		return []string{"../canary/", "/../canary/", "/../../canary/", "/x/../../canary/"}[simrt.Choice("c17.dotdot-spelling", 4)] + base
 	case "dotdot-in-name":
 		return "odd..name_" + base
 	case "dot-component":
